@@ -204,6 +204,21 @@ func runC19InBubble(c c19Case) (out kit.Outcome) {
 	for _, g := range got {
 		w.release(g, 1)
 	}
+	// a longer life: enough successful, measurable releases for the pool's sampling window to close
+	// (several times); the pool must keep serving
+	for i := 0; i < 26; i++ {
+		cl := w.newCaller("a", 0, 0)
+		w.start(cl)
+		synctest.Wait()
+		if !cl.Done || !cl.OK {
+			w.unwind(2 * time.Second)
+			w.flush()
+			return kit.Viol(kind+":stops-serving", "after %d successful acquire/hold/release cycles the pool did not admit the next caller although nobody holds a token", i)
+		}
+		time.Sleep(time.Millisecond)
+		w.release(cl, 0)
+		synctest.Wait()
+	}
 	w.flush()
 	holds := map[int]bool{}
 	coincide := false
@@ -239,7 +254,7 @@ func TestC19_pools(t *testing.T) {
 	kit.Check(t, kit.Prop[c19Case]{
 		ID: "C19", Quick: 3000, Thor: 300_000,
 		Rule: "fixed/generic pool x ordering x limit x callers (limit+1..limit+backlog) with generated arrival offsets and hold times on a virtual clock; held tokens never exceed the limit, every caller is granted within the sum of hold times of its arrival, zero state and full re-admission at the end; non-trivial = more callers than the limit, >=2 distinct hold times and a completion coinciding with an arrival",
-		Gen:  genC19(false), Run: runC19,
+		Gen:  genC19(false), Run: runC19, Timeout: 30 * time.Second,
 	})
 }
 
@@ -248,6 +263,6 @@ func TestC19_sched_Coop(t *testing.T) {
 	kit.Check(t, kit.Prop[c19Case]{
 		ID: "C19", Quick: 2000, Thor: 200_000,
 		Rule: "as TestC19_pools under generated cooperative schedules",
-		Gen:  genC19(true), Run: runC19,
+		Gen:  genC19(true), Run: runC19, Timeout: 30 * time.Second,
 	})
 }
